@@ -3,7 +3,7 @@
    `strip_raw` (Model/Format.v) mirror format.go Fmt / TrimFmt / StripRaw; pieces, `render`,
    `expected`, `literals`, `trim_expected` and the side conditions are in Spec/FmtSpec.v.
    All statements quantify over ALL byte strings / piece sequences (lists of N). *)
-Require Import Bytes Format FmtSpec FormatProofs.
+Require Import Bytes Format FmtSpec FormatProofs FormatTrimStable.
 From Coq Require Import Permutation.
 
 (* ---- StripRaw ---- *)
@@ -70,6 +70,26 @@ Theorem C20_trim_no_open : forall order ps,
   trim_fmt order (render ps) = trim_expected ps.
 Proof. exact trim_fmt_any_order_no_open. Qed.
 Print Assumptions C20_trim_no_open.
+
+(* ---- TrimFmt on ARBITRARY text (stray and nested braces included).  Go runs all colour
+   names in some order, then all code names in some order.  `trim_stable s` (Model/Format.v)
+   says: deleting at once all colour tokens present in s leaves no colour token, and
+   deleting at once all code tokens present in that leaves no code token.  Then every such
+   order returns that same text - in particular the one suite fmt.trim prints for the
+   canonical order.  ("{b{i}}" is not stable, and there the orders really differ:
+   Proofs/FormatTrimStable.v trim_stable_examples.) ---- *)
+
+Theorem C20_trim_any_text : forall oc od s,
+  trim_stable s = true -> Permutation oc color_names -> Permutation od code_names ->
+  trim_fmt (oc ++ od) s = strip_tokens code_names (strip_tokens color_names s).
+Proof. exact trim_fmt_stable. Qed.
+Print Assumptions C20_trim_any_text.
+
+Theorem C20_trim_any_text_canonical : forall oc od s,
+  trim_stable s = true -> Permutation oc color_names -> Permutation od code_names ->
+  trim_fmt (oc ++ od) s = trim_fmt trim_names s.
+Proof. exact trim_fmt_stable_canonical. Qed.
+Print Assumptions C20_trim_any_text_canonical.
 
 (* ---- StripRaw after Fmt: the literal pieces, whenever no text following a colour token
    begins with a digit or a comma.  `colourish` = a colour name, a {fg,bg} pair, or {c}/{clear},
